@@ -237,8 +237,15 @@ def oracle(ctx, kind, p):
             # compare graph text by graph text
             why3 = RC.match_output(res3[1], [[t] for t in texts])[0] if ok and not why else None
             if why3:
-                ctx.fail('not-idempotent', mech=' '.join(a.split('=')[0] for a in argv if a.startswith('--')
-                                                      and not a.startswith(('--indent', '--compact', '--model')))[:60],
+                # roles of the first output that the model's normalisation table would rewrite
+                noncanon = sorted({t[1].partition('~')[0] for t in R.lex(out)
+                                   if t[0] == 'ROLE' and t[1].partition('~')[0] in rm.normalizations})
+                det = dict(det, noncanonical_roles_in_first_output=noncanon,
+                           options=[k for k in ('canonicalize_roles', 'reify_edges', 'dereify_edges',
+                                                'reify_attributes', 'rearrange', 'make_variables') if o[k]])
+                ctx.fail('not-idempotent', mech=('normalisable-role-in-output ' if noncanon else '') +
+                         ' '.join(a.split('=')[0] for a in argv if a.startswith('--')
+                                  and not a.startswith(('--indent', '--compact', '--model')))[:60],
                          detail=dict(det, why=why3, first=out[:600], second=res3[1][:600]))
         # ---- real process, two hash seeds
         if p['i'] % 25 == 0 and not uses_random(o):
